@@ -1,6 +1,7 @@
 import Mimium.Model.LexerIO
 import Mimium.Model.ParserLoops
 import Mimium.Model.Occurs
+import Mimium.Gen.TypingFacts
 /-! `drv_c04`: line protocol driver for C04.
 
 `drv_c04 spans` — input line (from `c04 spans`): `hex(src) \t classes \t idx:start:end,…`
@@ -50,7 +51,8 @@ def occursLines (depth : Nat) : List String :=
     | .var _ => none
     | _ =>
       let show' (o : Option Bool) : String := match o with | some true => "circular" | some false => "bind" | none => "diverge"
-      some (hexOf (Mimium.Occurs.program t) ++ "\t" ++ show' (Mimium.Occurs.occ [] true 0 64 t) ++ "\t" ++
+      -- first column: the verdict of the occurs check AS WRITTEN in /repo (the operator is re-extracted on every run)
+      some (hexOf (Mimium.Occurs.program t) ++ "\t" ++ show' (Mimium.Occurs.occ [] (!Mimium.Gen.occursFnArmIsOr) 0 64 t) ++ "\t" ++
         show' (Mimium.Occurs.occ [] false 0 64 t) ++ "\t" ++ (if (Mimium.Occurs.vars t).contains 0 then "occurs" else "fresh"))
 
 partial def loop (h : IO.FS.Stream) (out : IO.FS.Stream) (f : String → String) : IO Unit := do
